@@ -7,6 +7,7 @@ import (
 	"io"
 	"reflect"
 	"strings"
+	"unsafe"
 )
 
 // wellFormed: encoding/xml tokenises the text to EOF without error, and there is exactly one
@@ -298,4 +299,51 @@ func (c *Ctx) RetainTree(api string, v interface{}, cas func() interface{}) {
 	if len(retainTreeRing) > 4 {
 		retainTreeRing = retainTreeRing[1:]
 	}
+}
+
+// ---- a result slice is a result, not a view ----
+
+// sharesBacking reports whether the result slice overlaps the backing array of any list inside recv.
+func sharesBacking(result []interface{}, recv interface{}) bool {
+	if cap(result) == 0 {
+		return false
+	}
+	lo := reflect.ValueOf(result).Pointer()
+	hi := lo + uintptr(cap(result))*unsafe.Sizeof(result[:1][0])
+	var walk func(v interface{}) bool
+	walk = func(v interface{}) bool {
+		switch t := v.(type) {
+		case map[string]interface{}:
+			for _, e := range t {
+				if walk(e) {
+					return true
+				}
+			}
+		case []interface{}:
+			if cap(t) > 0 {
+				a := reflect.ValueOf(t).Pointer()
+				b := a + uintptr(cap(t))*unsafe.Sizeof(t[:1][0])
+				if a < hi && lo < b {
+					return true
+				}
+			}
+			for _, e := range t {
+				if walk(e) {
+					return true
+				}
+			}
+		}
+		return false
+	}
+	return walk(recv)
+}
+
+// NoAlias: the slice a query returns must not be (part of) a list of the receiver - the caller may
+// sort it, overwrite its slots or append to it without changing the Map.
+func (c *Ctx) NoAlias(api string, result []interface{}, recv interface{}, shape string, cas interface{}, choices []int) bool {
+	if sharesBacking(result, recv) {
+		c.Violate(api, "result-is-a-view-of-the-receiver", shape, cas, choices, fmt.Sprintf("the slice returned by %s shares its backing array with a list inside the receiver: writing to the result writes to the Map (result %s)", api, short(dump(result), 300)))
+		return false
+	}
+	return true
 }
